@@ -373,3 +373,13 @@ func Test31Walk(t *testing.T) {
 		}()
 	}
 }
+
+func Test33StrayControl(t *testing.T) {
+	for _, src := range []string{"{{catch e}}x{{end}}", "{{if x}}{{content}}{{end}}", "{{try}}{{else}}{{end}}", "{{range x}}{{catch}}{{end}}{{end}}", "{{block b()}}{{if x}}a{{content}}b{{end}}{{end}}"} {
+		r := one(src, nil, nil)
+		if r.ParseErrIsNil() {
+			t.Errorf("%q accepted: %s", src, r)
+		}
+	}
+	wantOut(t, one("{{block b()}}[{{yield content}}]{{content}}D{{end}}{{try}}{{nope}}{{catch e}}C{{end}}{{if false}}a{{else}}E{{end}}", nil, nil), "[D]CE")
+}
